@@ -343,6 +343,8 @@ theorem step_inv {t : Topo} (wf : t.WF) {s s' : State} {l : Label} (hi : Inv t s
         have : e' = e := by simpa using x
         subst this; exact heof'
       split at h
+      · cases h; exact hi.systemError wf hloop
+      split at h
       · cases h; exact key.congr rfl
       split at h
       · cases h; exact hi.shutdownNode wf hloop
@@ -380,6 +382,8 @@ theorem step_inv {t : Topo} (wf : t.WF) {s s' : State} {l : Label} (hi : Inv t s
     split at h
     · split at h
       · cases h
+      split at h
+      · cases h; exact hi.systemError wf hloop
       · rename_i heof
         cases h
         have hloop' := hloop
